@@ -10,6 +10,7 @@
 #ifndef VDIG
 #define VDIG ((CA) > (CB) ? (CA) : (CB))
 #endif
+#include <stddef.h>
 #include "bn_common.h"
 #include "uf_mult.h"
 
@@ -106,6 +107,31 @@ void harness(void) {
 	V_ASSERT(c == oc, "bn_add_digit: carry written and exact");
 	if (oc) V_WITNESS("add_digit: carry out");
 	V_WITNESS("add_digit");
+
+#elif defined(O_DIGIT_EXACT)	/* bn_add_digit (SUBOP 0) / bn_sub_digit (SUBOP 1): besides value and carry, nothing may be written at or above
+				 * num[count]: those digits hold symbolic canaries (a truncated object cannot be used: CBMC checks the whole
+				 * `num` member against the object size); for count == BN_MAX_DIGITS the struct itself ends there */
+#ifdef ALL_ONES	/* completely full: every digit of the capacity is all ones */
+	for (size_t i = 0; i < CA; i++) V_ASSUME(a.num[i] == BN_MAX_DIGIT);
+#endif
+#if SUBOP == 0
+	bn_add_digit(&a, d, &c);
+	exp = o_add(va, (val_t)d, CAPA, &oc);
+#else
+	bn_sub_digit(&a, d, &c);
+	exp = o_sub(va, (val_t)d, CAPA, &oc);
+#endif
+	V_ASSERT(bn_repr_ok(&a) && a.count == CA, "bn_add/sub_digit: representation invariant");
+	V_ASSERT(bn_value(&a) == exp, "bn_add/sub_digit: value == (bn +- d) mod 2^capacity");
+	V_ASSERT(c == oc, "bn_add/sub_digit: carry/borrow written and exact");
+	for (size_t i = CA; i < MAXD; i++) V_ASSERT(a.num[i] == IN.a.num[i], "bn_add/sub_digit: nothing written at or above num[count]");
+#if DA == CA && SUBOP == 0
+	if (oc) V_WITNESS_MUST("add_digit at full capacity: carry out reported");
+#endif
+#if defined(ALL_ONES) && SUBOP == 0
+	V_ASSERT(d == 0 || (oc == 1 && exp == (val_t)d - 1), "all-ones + d: carry 1, value d-1");
+#endif
+	V_WITNESS("add/sub_digit with canaries above the capacity");
 
 #elif defined(O_SUBD)
 #ifdef KF_ADDSUB_DIGIT_ZERO_CARRY
